@@ -15,6 +15,7 @@ Definition spec_string (k : term) : str :=
   else if kind_is k "opt" then list_to_string [term_str (term_nth k 1); term_str (term_nth k 2)]
   else if kind_is k "args" then lit "args"
   else if kind_is k "empty" then []
+  else if kind_is k "blank" then [c_space; c_tab]
   else lit "p q r".
 
 Fixpoint dedup (l : list str) (seen : list str) : list str :=
@@ -53,7 +54,7 @@ Definition c10_model_obs (c : term) : term :=
   TList [obs_res rdef; obs_res rcall; calls; level; obs_res ia; obs_res ib; TList idefs].
 
 (* ---- the oracle ---- *)
-Definition is_bad (k : term) : bool := kind_is k "empty" || kind_is k "long".
+Definition is_bad (k : term) : bool := kind_is k "empty" || kind_is k "blank" || kind_is k "long".
 
 (* positional binding by kind; None = arity mismatch *)
 Fixpoint bind_spec (kinds : list term) (args : list str) : option (list (str * str)) :=
@@ -109,7 +110,7 @@ Definition c10_spec_ok (c obs : term) : bool :=
       match find is_bad kinds with
       | Some k =>
           (* rejected at definition; nothing is defined *)
-          err_with rdef (if kind_is k "empty" then lit "argument with no name"
+          err_with rdef (if kind_is k "empty" || kind_is k "blank" then lit "argument with no name"
                          else lit "too many fields in argument specifier ""p q r""")
           && err_with rcall (lit "invalid command name ""p""")
           && match calls with [] => true | _ => false end
